@@ -181,7 +181,7 @@ def run_signal_case(case, v):
     read_before, mutated = False, False
     watched = []        # (operand object, its own shadow, value type): operands of earlier '+' / 'copy' must keep reporting their own definition
     for step in range(case["nops"]):
-        op = str(rng.choice(["read", "shift", "imul", "idiv", "filter", "filter", "buffers", "buffers", "resample", "with_times", "add", "copy", "times", "times_iadd"]))
+        op = str(rng.choice(["read", "shift", "imul", "idiv", "filter", "filter", "buffers", "buffers", "buffers_refused", "resample", "with_times", "add", "copy", "times", "times_iadd"]))
         dt = s.dt
         if op == "shift":
             d = float(rng.uniform(-20e-9, 20e-9))
@@ -215,6 +215,18 @@ def run_signal_case(case, v):
             s.set_buffers(leading=lead, trailing=trail, force=force)
             sh.set_buffers(lead, trail, force)
             log.append("set_buffers(%s,%s,force=%s)" % (lead, trail, force))
+        elif op == "buffers_refused":
+            # a call that is refused (negative trailing buffer) after its valid leading buffer has been taken over: whatever the
+            # object holds afterwards is its definition, and the next read must answer for that definition
+            lead = [None, 0.0, 3.4 * dt, 10.4 * dt][int(rng.integers(0, 4))]
+            force = bool(rng.integers(0, 2))
+            try:
+                s.set_buffers(leading=lead, trailing=-2.2 * dt, force=force)
+                v.check(False, "a negative buffer time is refused", history=log[-6:])
+            except ValueError:
+                pass
+            sh.set_buffers(lead, None, force)
+            log.append("set_buffers(%s,negative,force=%s) refused" % (lead, force))
         elif op == "resample":
             n = int(rng.integers(8, 60))
             s.resample(n)
@@ -312,6 +324,12 @@ def run_signal_case(case, v):
             if pattern:
                 rmr += 1
             if not (ok1 and ok2):
+                break
+            # staleness oracle that needs no model: binding an equal copy of the grid forces a re-evaluation; it must give the same values
+            s.times = np.array(s.times)
+            again = np.array(s.values)
+            if not v.close("values do not change when re-evaluation is forced (an equal grid is bound again)", float(np.max(np.abs(again - got))) / sc if again.shape == got.shape else float("inf"),
+                           1e-12, history=log[-8:]):
                 break
             # operands of earlier additions / copies still report their own definition (nothing the result did reached them)
             for wobj, wsh, wvt in watched[-4:]:
